@@ -15,7 +15,7 @@ import (
 // RemoveWhitespace / ParseFunction / SplitOnComma first (contradiction rule: 12 of the 14 readers did).
 func c08RawArguments(c *core.Check) {
 	p := c.Prog
-	r := c.Rule("R13", "white space and comments inside a function are irrelevant: in css/validation and html/tree no list read from the Arguments field of a token is indexed at a constant position, sliced with constant bounds or has its length compared with a constant before white space and comments are removed from it", 11)
+	r := c.Rule("R13", "white space and comments inside a function are irrelevant: in css/validation and html/tree no list read from the Arguments field of a token is indexed at a constant position, sliced with constant bounds or has its length compared with a constant before white space and comments are removed from it", 12)
 	n := 0
 	for _, pkg := range []string{"css/validation", "html/tree"} {
 		for _, fn := range p.FuncsOfPkg(pkg) {
